@@ -146,6 +146,9 @@ func (r *RateLimit) ServeDNS(ctx context.Context, ch *middleware.Chain) {
 
 						l.cookie.Store(servercookie)
 						option.(*dns.EDNS0_COOKIE).Cookie = servercookie
+						// The reply is built from this OPT: it carries the one
+						// cookie just issued, not whatever else came with it.
+						opt.Option = []dns.EDNS0{option}
 
 						ch.CancelWithRcode(dns.RcodeBadCookie, false)
 
@@ -220,6 +223,9 @@ func (r *RateLimit) serveWire(ctx context.Context, ch *middleware.Chain) {
 
 				l.cookie.Store(servercookie)
 				cookieOpt.Cookie = servercookie
+				if opt := req.IsEdns0(); opt != nil {
+					opt.Option = []dns.EDNS0{cookieOpt}
+				}
 
 				ch.CancelWithRcode(dns.RcodeBadCookie, false)
 				return
